@@ -189,6 +189,10 @@ func runSharded(c *Check, env *Env) *Summary {
 				mu.Unlock()
 				from = last + 1
 			}
+			mu.Lock()
+			sum.Complete = false
+			sum.Extra["crash_cap"] = "a shard hit 200 crashing cases; its remaining cases were not explored"
+			mu.Unlock()
 		}(sh)
 	}
 	wg.Wait()
